@@ -85,10 +85,12 @@ def run(ctx):
         ctx.violation("harness does not build against /repo", {"correspondence": "C25", "log": getattr(ctx, "hx_log", "")[-2000:]},
                       tag="build", found_input=False)
     K.decide_standard(ctx, corrs, FINDINGS)
+    covered = S.impl_reported(ctx, spec_violated)
     K.report_mismatch(ctx, spec_violated)
     bad = spec_scan(c.ops, c.impl) if not c.err else []
     mism = set(c.mismatch)
-    unflagged = [h for h in S.relevant_hits(bad, c.flags, K.known_ids("C25"), CLASSES, -1) if h[0] not in mism]
+    unflagged = [h for h in S.relevant_hits(bad, c.flags, K.known_ids("C25"), CLASSES, -1)
+                 if not (covered and h[0] in mism)]
     if unflagged:
         i, why, _ = unflagged[0]
         rep = K.case_replay(c, K.case_of(c, i), upto=i)
